@@ -472,6 +472,32 @@ let grammar_line line =
        | _ -> "BAD")
   | _ -> "BAD"
 
+(* grammarits: like `grammar`, but the pages carry their payload bytes: <hex|->.cnt.par ; prints whether the link is in the
+   word-level grammar (the extracted membership test link_witness) and the rendered bytes of the link for the comparison *)
+let grammarits_line line =
+  match List.map String.trim (String.split_on_char ';' line) with
+  | head :: hbfs ->
+      (match split_ws head with
+       | [ link; fee; ver; sys; fmt; cru; dw ] ->
+           let ni x = n_of_int (int_of_string x) in
+           let page s = match String.split_on_char '.' s with
+             | [ hex; cnt; par ] -> { pg_counter = ni cnt; pg_par = ni par; pg_payload = (if hex = "-" then [] else bytes_of_hex hex) }
+             | _ -> failwith "page" in
+           let hbf s = match String.split_on_char ':' s with
+             | [ f; pages; stop ] ->
+                 (match String.split_on_char ',' f with
+                  | [ o; b; t; d ] -> { h_orbit = ni o; h_bc = ni b; h_trigger = ni t; h_detfield = ni d;
+                                        h_pages = (if pages = "" then [] else List.map page (String.split_on_char ',' pages)); h_stop = page stop }
+                  | _ -> failwith "hbf fields")
+             | _ -> failwith "hbf" in
+           let ld = { l_link = ni link; l_fee = ni fee; l_version = ni ver; l_system = ni sys; l_format = ni fmt; l_cru = ni cru; l_dw = ni dw;
+                      l_hbfs = List.map hbf (List.filter (fun x -> x <> "") hbfs) } in
+           let its = match link_witness ld with Some _ -> 1 | None -> 0 in
+           Printf.sprintf "wf=%d its=%d %s" (if wf_link_rdh ld then 1 else 0) its
+             (String.concat "," (List.map (fun (r, p) -> hex_of_bytes (encode_rdh r) ^ hex_of_bytes p) (render_link ld)))
+       | _ -> "BAD")
+  | _ -> "BAD"
+
 (* cli: one whole run in a check mode.
    <all|sanity> <none|its|stave> <filter> <mute 0|1> <cap> <w codes -|a,b> <E -|n> <cdps -|n> <pht -|n> <period -|n> <file|pipe> <hex> *)
 let cli_line line =
@@ -562,6 +588,7 @@ let () =
     | "stats" -> stats_line
     | "cli" -> cli_line
     | "grammar" -> grammar_line
+    | "grammarits" -> grammarits_line
     | "view" -> view_line
     | "statscmp" -> statscmp_line
     | "statsfile" -> statsfile_line
